@@ -24,6 +24,9 @@ claimed = {
  "C39": ("the prefork master (instrumented, os/exec.Cmd substituted by scripted children handed over through CommandProducer) with simulated GOMAXPROCS 1-4, RecoverThreshold 0-3, RecoverInterval and ShutdownGracePeriod on the fake clock, children that exit at seeded times, ignore SIGTERM or die slowly, spawn failures and hook errors at the k-th call; child ledger (spawn, signal, kill, exit, reap) and task census after return", "6/C39"),
  "C40": ("sequential and burst histories over 2-6 fake BalancingClients with scripted pending counts, failures, AddClient/RemoveClients and sleeps around the 3 s penalty expiry; exact least-load oracle against a penalty model (cap 300, 3 s) for sequential calls, bursts of up to 340 concurrent failures, ErrNoAvailableClients on an emptied list", "6/C40"),
  "C41": ("2-10 concurrent DialTimeout calls on a TCPDialer (Concurrency 1-3 or unbounded) with a simulated Resolver (1-4 addresses, slow, failing) and net.Dialer substituted by endpoints that accept, refuse, hang or are slow; in-progress connect monitor, rotation/all-addresses-tried oracle, wrapped ErrDialTimeout within timeout+slack on the simulated clock", "6/C41"),
+ "C23": ("request targets over an alphabet of dot, percent-encoded, backslash, NUL and long-run segments x hosts (for the vhost rewriter) x built-in rewriters with all small counts x default-filesystem mode (os calls substituted by recording wrappers over a per-run real directory tree with bait files outside the root) and fs.FS mode, compression with and without CompressRoot, concurrent requests and disk faults; every recorded path must lie inside Root/CompressRoot, no outside content served, NUL and post-rewrite dot-dot rejected", "6/C23"),
+ "C24": ("files of size 0, 1, 100, 8191-8193, 30000 x Range strings from a grammar (valid, open, suffix incl. -0, reversed, multi, garbage, overflow) x Accept-Encoding with gzip/br/zstd x If-Modified-Since before/at/after/garbage x GET and HEAD, short file reads, cache expiry between requests, concurrent compression; independent RFC 9110 range reference, decoded-body equality, HEAD mirrors GET, ParseByteRange invariant", "6/C24"),
+ "C25": ("4-12 concurrent FS requests with slow or aborting clients (tiny receive windows), CacheDuration 100 ms-1 s, SkipCache, CleanStop closed at a seeded time, the handler cleanup run as a simulator event; per-handle accounting in the substituted file layer: closed exactly once, never read after close, none open after quiescence", "6/C25"),
  "C33": ("PipeConns stream equality and Close semantics, InmemoryListener Dial/Accept/Close pairing, under seeded interleavings of writers, readers, deadlines and closers at every channel/select/mutex operation", "6/C33"),
 }
 na = {
